@@ -2,6 +2,7 @@ import WhVerif.Model.C14
 import WhVerif.Spec.C14
 import WhVerif.Lemmas.C14
 import WhVerif.Lemmas.C14Text
+import WhVerif.Lemmas.C14Deep
 /-!
 # C14 — split distributes every read to exactly the outputs its haplotype entry selects
 
@@ -473,5 +474,205 @@ example : selectedBlocks [⟨"a", 1, "7", "chr1"⟩, ⟨"b", 1, "7", "chr1"⟩, 
 example : (resolveOutputs ⟨false, false, none, true⟩, resolveOutputs ⟨false, false, none, false⟩) =
     (.error .usage, .error .typeError) := rfl
 example : bamLen 0 [(5, 2), (0, 3), (2, 4), (4, 2)] = 5 := rfl
+
+/-! ## round 10: duplicate names, ties of largest blocks, the input iterators, format decision from bytes -/
+
+/-- **table_last_entry_wins**: for EVERY accepted list (read names may be listed any number of times, in any phase sets
+and chromosomes) the dict `readname_to_haplotype` answers, for a name, the haplotype of the LAST tagged line of that
+name (`none` lines never reset it); with `--only-largest-block` only if SOME tagged line of the name lies in a selected
+block — the answering line itself may lie in another block or chromosome — and 0 otherwise. -/
+theorem table_last_entry_wins (o : Opts) (lines : List Line) (t : Table) (h : buildTable o lines = .ok t)
+    (name : String) :
+    t.hapOf name = match lastTagged lines name with
+      | some l => if inSelected o lines name then l.hap else 0
+      | none => 0 := by
+  obtain ⟨rfl, _⟩ := buildTable_ok o lines t h
+  exact hapOf_assignOf_gen o lines _ name
+
+/-- **table_realises_list_general**: `table_realises_list` without the no-duplicates hypothesis — the option table
+from the code's table is the option table read off the lines with the last-tagged-line rule (`prescribedByListGen`). -/
+theorem table_realises_list_general (o : Opts) (lines : List Line) (t : Table) (h : buildTable o lines = .ok t)
+    (r : Read) : prescribed o t r = prescribedByListGen o lines r :=
+  prescribed_eq_byListGen o lines t h r
+
+/-- on lists without duplicate names the general reading is the reading of `table_realises_list` -/
+theorem general_agrees_without_duplicates (o : Opts) (lines : List Line) (t : Table) (h : buildTable o lines = .ok t)
+    (hn : (lines.map (·.name)).Nodup) (r : Read) : prescribedByListGen o lines r = prescribedByList o lines r := by
+  rw [← table_realises_list_general o lines t h r, table_realises_list o lines t h hn r]
+
+/-- **discard_duplicate_rejected** (interaction with `--discard-unknown-reads`): a list naming a read twice — also once as
+`none` and once tagged, or in two phase sets — is refused by the `assert total_reads == len(known_reads)`. -/
+theorem discard_duplicate_rejected (o : Opts) (lines : List Line) (hd : o.discardUnknown = true)
+    (hdup : ¬ (lines.map (·.name)).Nodup) : buildTable o lines = .error .assertDuplicate :=
+  buildTable_dup_error o lines hd hdup
+
+/-- **split_text_end_to_end_general**: `split_text_end_to_end` for every list, duplicate names included. -/
+theorem split_text_end_to_end_general (a : OutArgs) (f : Flags) (text : List Char) (reads : List Read) (o : Opts)
+    (p : Pass) (lines : List Line) (hrun : runSplit a f text reads = .ok (o, p)) (hl : parseText o text = .ok lines)
+    (k : Nat) (hk : isRequested o k = true) :
+    written p k = ((reads.zipIdx 0).filter (fun q => decide (k ∈ prescribedByListGen o lines q.1))).map (·.2) := by
+  unfold runSplit at hrun
+  cases ho : optsOf a f with
+  | error e => rw [ho] at hrun; cases hrun
+  | ok o' =>
+    rw [ho] at hrun
+    simp only at hrun
+    cases hp : processListText o' text with
+    | error e => rw [hp] at hrun; cases hrun
+    | ok t =>
+      rw [hp] at hrun
+      simp only [Except.ok.injEq, Prod.mk.injEq] at hrun
+      obtain ⟨rfl, rfl⟩ := hrun
+      unfold processListText at hp
+      rw [hl] at hp
+      simp only at hp
+      rw [routed_exactly o' t k hk]
+      congr 1
+      apply List.filter_congr
+      intro q _
+      rw [table_realises_list_general o' lines t hp]
+
+/-- **largest_block_tie_first_in_list**: `Counter.most_common(1)` on a tie — among the phase sets of its chromosome
+with as many tagged lines as the selected block, the selected block is the one whose first tagged line comes first in
+the list file (insertion order of the `Counter` = first occurrence). -/
+theorem largest_block_tie_first_in_list (tagged : List Line) (b : String × String) (h : b ∈ selectedBlocks tagged)
+    (ps : String) (he : blockSize tagged (b.1, ps) = blockSize tagged b) :
+    firstIdx tagged b ≤ firstIdx tagged (b.1, ps) :=
+  selected_first_among_ties tagged b h ps he
+
+/-- **largest_block_deterministic**: the selected blocks are exactly the blocks that are largest in their chromosome
+and first in the list among the largest — a predicate on the tagged lines in list order only (no set or hash order
+enters); in particular two runs on the same list text select the same blocks. -/
+theorem largest_block_deterministic (tagged : List Line) (b : String × String) :
+    b ∈ selectedBlocks tagged ↔ IsFirstLargest tagged b :=
+  selected_iff_firstLargest tagged b
+
+/-- **iterator_yields_every_record_once**: `_bam_iterator` and `_fastq_string_iterator` yield one item per input record,
+in input order: the record indices of the items are `0, 1, …, n-1`, the names are the records' names (FASTQ: the title up
+to the first white space), the lengths are `bamLen` resp. the total length of the sequence lines. -/
+theorem iterator_yields_every_record_once (recs : List BamRec) (fq : List FqRec) :
+    ((bamIter 0 recs).map (·.2.2) = List.range recs.length ∧
+     (bamIter 0 recs).map (·.1) = recs.map (·.name) ∧
+     (bamIter 0 recs).map (·.2.1) = recs.map (fun r => bamLen r.seqLen r.cigar)) ∧
+    ((fastqIter 0 fq).map (·.2.2) = List.range fq.length ∧
+     (fastqIter 0 fq).map (·.1) = fq.map (fun r => fastqName r.title) ∧
+     (fastqIter 0 fq).map (·.2.1) = fq.map (fun r => (r.seqLines.map List.length).sum)) := by
+  have hb := bamIter_eq recs 0
+  have hf := fastqIter_eq fq 0
+  refine ⟨⟨?_, ?_, ?_⟩, ?_, ?_, ?_⟩
+  · rw [hb, List.map_map]
+    have := zipIdx_map_snd recs 0
+    rw [List.range_eq_range', ← this]; rfl
+  · rw [hb, List.map_map]
+    conv => rhs; rw [← zipIdx_map_fst recs 0]
+    rw [List.map_map]; rfl
+  · rw [hb, List.map_map]
+    conv => rhs; rw [← zipIdx_map_fst recs 0]
+    rw [List.map_map]; rfl
+  · rw [hf, List.map_map]
+    have := zipIdx_map_snd fq 0
+    rw [List.range_eq_range', ← this]; rfl
+  · rw [hf, List.map_map]
+    conv => rhs; rw [← zipIdx_map_fst fq 0]
+    rw [List.map_map]; rfl
+  · rw [hf, List.map_map]
+    conv => rhs; rw [← zipIdx_map_fst fq 0]
+    rw [List.map_map]
+    apply List.map_congr_left
+    intro q _
+    simp [fastqLen, List.length_flatten]
+
+/-- **bamLen_cases**: the three branches of `_bam_iterator`, each yielding the record exactly once: a stored sequence;
+no sequence but a CIGAR (length = its query-consuming operations, 0 for e.g. `5H`); neither (SEQ `*`, CIGAR `*`) →
+length 0 — the record is still yielded (seed C14-h's shape). -/
+theorem bamLen_cases (r : BamRec) (i : Nat) :
+    (0 < r.seqLen → bamYield r i = [(r.name, r.seqLen, i)]) ∧
+    (r.seqLen = 0 → r.cigar ≠ [] →
+      bamYield r i = [(r.name, ((r.cigar.filter (fun e => consumesQuery e.1)).map (·.2)).sum, i)]) ∧
+    (r.seqLen = 0 → r.cigar = [] → bamYield r i = [(r.name, 0, i)]) := by
+  refine ⟨fun h => ?_, fun h hc => ?_, fun h hc => ?_⟩
+  · simp [bamYield, h]
+  · rw [bamYield_eq]; simp [bamLen, h]
+  · rw [bamYield_eq]; simp [bamLen, h, hc]
+
+/-- **detect_bam_from_bytes**: `detect_file_format` answers BAM exactly for a file with the gzip magic `1f 8b` whose
+decompressed stream starts with `BAM\1` (a FASTQ, gzipped or not, never does: its first byte is `@`). -/
+theorem detect_bam_from_bytes (head : List Nat) (inner : Option (List Nat)) :
+    magicOfBytes head inner = some .bam ↔
+      bGZ.isPrefixOf head = true ∧ ∃ b, inner = some b ∧ bBAM.isPrefixOf b = true := by
+  unfold magicOfBytes
+  constructor
+  · intro h
+    split at h
+    · cases h
+    · split at h
+      · cases h
+      · split at h
+        · rename_i hgz
+          cases inner with
+          | none => cases h
+          | some b =>
+            simp only at h
+            split at h
+            · exact ⟨hgz, b, rfl, by assumption⟩
+            · split at h <;> cases h
+        · cases h
+  · rintro ⟨hgz, b, rfl, hb⟩
+    have h1 : bCRAM.isPrefixOf head = false := by
+      cases head with
+      | nil => simp [bGZ] at hgz
+      | cons x t =>
+        simp only [bGZ, List.isPrefixOf, Bool.and_eq_true, beq_iff_eq] at hgz
+        have := hgz.1; subst this
+        simp [bCRAM, List.isPrefixOf]
+    have h2 : bVCF.isPrefixOf head = false := by
+      cases head with
+      | nil => simp [bGZ] at hgz
+      | cons x t =>
+        simp only [bGZ, List.isPrefixOf, Bool.and_eq_true, beq_iff_eq] at hgz
+        have := hgz.1; subst this
+        simp [bVCF, List.isPrefixOf]
+    simp [h1, h2, hgz, hb]
+
+/-! ### non-vacuity / witnesses of round 10 -/
+
+/-- a name listed in two phase sets of one chromosome: `r` is tagged H1 in the largest block (100: two lines) and, later,
+H2 in the smaller block 200. Its name is collected from block 100, the dict holds the LAST assignment: H2. -/
+example : (buildTable ⟨2, [true, true, true], false, false, true⟩
+    [⟨"r", 1, "100", "chr1"⟩, ⟨"s", 1, "100", "chr1"⟩, ⟨"r", 2, "200", "chr1"⟩]).toOption.map (fun t => (t.hapOf "r", t.hapOf "s")) =
+    some (2, 1) := by rfl
+/-- … the other way round (last line in the largest block, first in a smaller one) — and a name only in the smaller block is untagged -/
+example : (buildTable ⟨2, [true, true, true], false, false, true⟩
+    [⟨"r", 2, "200", "chr1"⟩, ⟨"q", 2, "300", "chr1"⟩, ⟨"r", 1, "100", "chr1"⟩, ⟨"s", 1, "100", "chr1"⟩]).toOption.map
+      (fun t => (t.hapOf "r", t.hapOf "q")) = some (1, 0) := by rfl
+/-- a name on two chromosomes: selected through chr2's only block, answered by its last line (on chr1, outside chr1's
+largest block) -/
+example : (buildTable ⟨2, [true, true, true], false, false, true⟩
+    [⟨"a", 1, "1", "chr1"⟩, ⟨"b", 1, "1", "chr1"⟩, ⟨"r", 1, "9", "chr2"⟩, ⟨"r", 2, "5", "chr1"⟩]).toOption.map
+      (fun t => t.hapOf "r") = some 2 := by rfl
+/-- a `none` line after a tagged line does not reset the entry -/
+example : (buildTable (o2 false false) [⟨"r", 1, "", ""⟩, ⟨"r", 0, "", ""⟩]).toOption.map (fun t => t.hapOf "r") = some 1 := by
+  rfl
+/-- with `--discard-unknown-reads` the same list is refused -/
+example : buildTable (o2 false true) [⟨"r", 1, "", ""⟩, ⟨"r", 0, "", ""⟩] = .error .assertDuplicate := by rfl
+example : ¬ (([⟨"r", 1, "", ""⟩, ⟨"r", 0, "", ""⟩] : List Line).map (·.name)).Nodup := by simp
+/-- end to end with a duplicate name: `a` listed H1 then H2 → written to H2 -/
+example : ∃ o p, runSplit ⟨true, true, none, true⟩ ⟨false, false, false⟩ "a\tH1\na\tH2\n".toList
+    [⟨"a", 3⟩, ⟨"c", 4⟩] = .ok (o, p) ∧ written p 1 = [] ∧ written p 2 = [0] ∧ written p 0 = [1] :=
+  ⟨_, _, rfl, rfl, rfl, rfl⟩
+/-- a tie: phase sets 7 and 9 of chr1 have two lines each; 9's first line comes first → 9 is selected -/
+example : selectedBlocks [⟨"a", 1, "9", "chr1"⟩, ⟨"b", 1, "7", "chr1"⟩, ⟨"c", 2, "7", "chr1"⟩, ⟨"d", 1, "9", "chr1"⟩] =
+    [("chr1", "9")] := by rfl
+example : blockSize [⟨"a", 1, "9", "chr1"⟩, ⟨"b", 1, "7", "chr1"⟩, ⟨"c", 2, "7", "chr1"⟩, ⟨"d", 1, "9", "chr1"⟩] ("chr1", "7") =
+    blockSize [⟨"a", 1, "9", "chr1"⟩, ⟨"b", 1, "7", "chr1"⟩, ⟨"c", 2, "7", "chr1"⟩, ⟨"d", 1, "9", "chr1"⟩] ("chr1", "9") := by rfl
+/-- the iterator on the three record shapes (SEQ, no SEQ + CIGAR `2H3M4D2S`, neither) and on a hard-clip-only CIGAR -/
+example : bamIter 0 [⟨"a", 4, []⟩, ⟨"b", 0, [(5, 2), (0, 3), (2, 4), (4, 2)]⟩, ⟨"c", 0, []⟩, ⟨"d", 0, [(5, 4)]⟩] =
+    [("a", 4, 0), ("b", 5, 1), ("c", 0, 2), ("d", 0, 3)] := by rfl
+/-- FASTQ: name = title up to the first white space (tab too), multi-line sequence -/
+example : fastqIter 0 [⟨"r1\tc1 x".toList, ["AC".toList, "GT".toList]⟩, ⟨"r2  two".toList, ["ACG".toList]⟩] =
+    [("r1", 4, 0), ("r2", 3, 1)] := by rfl
+/-- bytes: a BGZF/gzip file whose stream starts `BAM\1`; a gzipped FASTQ; a plain FASTQ; a broken gzip stream -/
+example : (magicOfBytes [31, 139, 8, 4] (some [66, 65, 77, 1, 0]), magicOfBytes [31, 139, 8, 0] (some [64, 114]),
+    magicOfBytes [64, 114, 10] none, magicOfBytes [31, 139, 0] none) = (some .bam, some .other, some .other, none) := by rfl
 
 end WhVerif.Props.C14
